@@ -401,8 +401,33 @@ def rule_replay(ctx, repo):
                     infeasible += [(tn, m) for m in f.g.succ_label(tn, "false")]
                 elif tt == "self.data_csv is None":
                     infeasible += [(tn, m) for m in f.g.succ_label(tn, "true")]
+        # in replay mode the stepping call is `_csv_step`; if it cannot fail (every return is a true constant), the rejected-step branch
+        # of the loop is not taken in replay mode
+        cs = repo.cls("TDS", TDS).methods.get("_csv_step")
+        if cs is not None:
+            rets = [x for x in walk_noscope(cs) if isinstance(x, ast.Return)]
+            def always_true(r_):
+                if isinstance(r_.value, ast.Constant) and r_.value.value is True:
+                    return True
+                # `self.converged = True; return self.converged` in a straight-line body
+                tgt = dotted(r_.value)
+                if tgt and not any(isinstance(x, (ast.If, ast.For, ast.While, ast.Try)) for x in cs.body):
+                    asg = [x for x in cs.body if isinstance(x, ast.Assign) and any(dotted(t_) == tgt for t_ in x.targets)]
+                    return bool(asg) and isinstance(asg[-1].value, ast.Constant) and asg[-1].value.value is True
+                return False
+            if rets and all(always_true(x) for x in rets):
+                status = {t_.id for x in f.g.nodes() if f.g.data(x)["kind"] == "stmt" and isinstance(f.g.data(x)["ast"], ast.Assign)
+                          and isinstance(f.g.data(x)["ast"].value, ast.Call) and dotted(f.g.data(x)["ast"].value.func) == "self._csv_step"
+                          for t_ in f.g.data(x)["ast"].targets if isinstance(t_, ast.Name)}
+                for tn in f.g.nodes():
+                    dd = f.g.data(tn)
+                    if dd["kind"] == "test" and dd["expr"] and isinstance(dd["expr"][0], ast.Name) and dd["expr"][0].id in status:
+                        infeasible += [(tn, m) for m in f.g.succ_label(tn, "false")]
         for c in cn:
             n += 1
+            if f.g.path(f.g.entry, c, avoid=(), avoid_edges=infeasible) is None:
+                ctx.ok("C15.replay", "TDS.%s/calc_h@%d" % (mname, n), "call site not reachable in replay mode", f.W(c))
+                continue
             ok, p = f.g.must_pass(c, f.g.exit, tadv + resync + abort, infeasible_edges=infeasible)
             ctx.check(ok, "C15.replay", "TDS.%s/calc_h@%d" % (mname, n), "pointer advance is followed by the clock advance (or a re-sync)",
                       "calc_h() moves the replay row pointer but `dae.t += self.h` does not follow on the path %s: the next _csv_step loads "
